@@ -181,6 +181,7 @@ fn target(t: &str, addr: usize, len: usize) -> Target {
     match t {
         "t0" => Target::Resolved(0),
         "next" => Target::Resolved(addr + 1),
+        "skip" => Target::Resolved(addr + 2),
         "end" => Target::Resolved(len),
         "max" => Target::Resolved(usize::MAX),
         "unres" => Target::Unresolved(Label::new_temp(ident("nowhere"))),
